@@ -89,7 +89,7 @@ def run(ctx):
                        'one location per package: the cache key (location, layer index, extractor) then determines the extraction result',
                        'filesystem.Run inside the trace fails only through the context (ErrorOnFSErrors and MaxInodes do not reach it): cancellation is modelled as "after k re-extractions"; extraction is a function of the file content; an Extract error does not drop the packages it returned',
                        'package identity = (purl, Locations[0]); the fake extractor emits purls pkg:generic/<name>@<version>, names are shared between versions']
-    ctx.rule = ('case = history of 1..6 entries (E empty layer | layer with one op per file: k keep, d whiteout, w<digits> rewrite with these packages (a digit is a (name, version) pair; digits d and d+4 are the SAME name at versions 1 and 2, so files hold one name at two versions, versions get bumped, and the same name@version sits at several locations), s<digits> replace the location by a symlink to such a list, a<n>/r<n> delete by whiteout / replace by a regular file the directory n levels above the file — files sit up to three directories deep and share no ancestor, because a deleted directory re-created for a SIBLING is the known C04 finding C04/recreate-after-whiteout), 1..3 files, history mode H/N/S/G (full; none, last entry dropped, one entry too many: the last three usually take the fallback of initializeChainLayers, where the specification (Spec.specChain) says one chain layer per v1 layer, Index = the ordinal of the layer, no command), optionally the context cancelled after k re-extractions of the trace (c0: by a detector, before the trace starts); a fifth of the cases lets something fail AFTER the successful extraction of the final view (a detector reporting inconsistent advisories / a finding without advisory / an error, a failing standalone extractor): the scan is then marked failed or partly failed but keeps its inventory, and the attribution must be exactly the same; '
+    ctx.rule = ('case = history of 1..6 entries (E empty layer | layer with one op per file: k keep, d whiteout, w<digits> rewrite with these packages (a digit is a (name, version) pair; digits d and d+4 are the SAME name at versions 1 and 2, so files hold one name at two versions, versions get bumped, and the same name@version sits at several locations), s<digits> replace the location by a symlink to such a list, a<n>/r<n>/l<n>/h<n> delete by whiteout / replace by a regular file / by a symlink / by a hard link to another directory the directory n levels above the file — files sit up to three directories deep and share no ancestor, because a deleted directory re-created for a SIBLING is the known C04 finding C04/recreate-after-whiteout), 1..3 files, history mode H/N/S/G (full; none, last entry dropped, one entry too many: the last three usually take the fallback of initializeChainLayers, where the specification (Spec.specChain) says one chain layer per v1 layer, Index = the ordinal of the layer, no command), optionally the context cancelled after k re-extractions of the trace (c0: by a detector, before the trace starts); a fifth of the cases lets something fail AFTER the successful extraction of the final view (a detector reporting inconsistent advisories / a finding without advisory / an error, a failing standalone extractor): the scan is then marked failed or partly failed but keeps its inventory, and the attribution must be exactly the same; '
                 'thorough adds every history of <=4 entries over one file with packages p1@1, p1@2, p2@1 (15 ops per entry, ancestor deletions at every level included; histories of 3-4 entries also cancelled after the first re-extraction). non-trivial = more than two chain layers and a non-empty final inventory; '
                 'distinct = distinct case lines. oracle: every reported package must carry Index = least L with the package in every view L..last (computed by the Lean driver from the case), '
                 'the DiffID of that chain layer\'s v1 layer and its CreatedBy; a package without LayerDetails is accepted only when the context was cancelled')
@@ -143,7 +143,7 @@ def run(ctx):
         npk = 0 if fm.get('pk', '-') == '-' else fm['pk'].count(',')   # without the standalone extractor's package
         unset = fi.get('pk', '').count('@nil')
         return 'mode=%s entries=%d pkgs=%s%s%s%s%s' % (mode, len(ls), npk if npk < 3 else '3+', ' empty-layers' if 'E' in ls else '',
-                                                  ' symlink' if any('/s' in l for l in ls) else '', ' ancestor-op' if any('/a' in l or '/r' in l for l in ls) else '',
+                                                  ' symlink' if any('/s' in l for l in ls) else '', ' ancestor-op' if any('/a' in l or '/r' in l or '/l' in l or '/h' in l for l in ls) else '',
                                                   (' cancelled(unset=%s)' % ('0' if unset == 0 else '1+')) if _cancel(case) else '')
 
     def finding_class(case, fi, fm):
